@@ -66,6 +66,8 @@ class Env:
     def handler(self, ev):
         status, sense = self.plan.pop(0) if self.plan else (0, None)
         self.injected.append((status, sense))
+        if status == "raise":
+            raise sense  # the binding itself fails (the ioctl, the connection): an exception out of its execute / command
         if self.static_sense is not None:
             # a binding that reuses one sense buffer: overwritten by every command, zeroed on GOOD
             for i in range(len(self.static_sense)):
@@ -279,6 +281,18 @@ def run(shard, ctx):
                         ctx.add("sense_classes", "%02x:key%x:len%d" % (rc, key, len(sense)))
                         ctx.count("binding_calls")
                         judge_call(ctx, env, "execute", 2, sense, raw, outcome, exc, cmd, {"sense_class": "%02x/%x/%d" % (rc, key, n)})
+        # sense data that is not sense data (all zero, vendor-specific and reserved response codes): still a failed command
+        for rc in (0x00, 0x7F, 0x7E, 0x74, 0x6F, 0x01, 0xFF, 0x80):
+            for n in (1, 8, 18, 32):
+                for raw in (False, True):
+                    sense = bytes([rc]) + bytes((rc * 7 + i) & 0xFF if rc else 0 for i in range(n - 1))
+                    env.plan = [(2, sense)]
+                    cmd = fresh_cmd(env, rng)
+                    outcome, exc = execute(env, cmd, raw)
+                    ctx.case((t, "odd-sense", sense, raw), True)
+                    ctx.count("binding_calls")
+                    ctx.count("check_conditions_with_unknown_response_codes")
+                    judge_call(ctx, env, "execute", 2, sense, raw, outcome, exc, cmd, {"sense_class": "response code %02Xh, %d bytes" % (rc, n)})
         for _ in range(shard["n"]):
             sense = env.unique_sense(rng)
             raw = bool(rng.getrandbits(1))
@@ -516,6 +530,15 @@ def run_facade_sessions(shard, ctx, env, rng):
             r = rng.random()
             status = 0 if r < 0.45 else 2 if r < 0.8 else rng.choice(list(NAMED) + [0x01, 0xFF, 0x10])
             sense = env.unique_sense(rng) if status == 2 else None
+            if status == 2 and rng.random() < 0.15 and t != "sgio":
+                sense = None  # CHECK CONDITION for which the iSCSI binding has no sense data (a task without autosense)
+                ctx.count("check_conditions_without_sense_data")
+            if rng.random() < 0.06:
+                import errno as _errno
+
+                status, sense = "raise", rng.choice([OSError(_errno.ENODEV, "No such device"), OSError(_errno.ENXIO, "No such device or address"), OSError(_errno.EIO, "Input/output error"),
+                                                     OSError(_errno.EBUSY, "busy"), TimeoutError("timed out"), ConnectionResetError(104, "reset"), MemoryError(), RuntimeError("binding failed")])
+                ctx.count("binding_errors_injected")
             env.plan = [(status, sense)]
             before = len(env.injected)
             try:
@@ -524,8 +547,29 @@ def run_facade_sessions(shard, ctx, env, rng):
             except Exception as e:  # noqa: BLE001
                 ret, outcome, exc = None, "raised", e
             reached = len(env.injected) - before
-            hist.append({"method": label, "status": status, "outcome": outcome})
+            hist.append({"method": label, "status": status if status != "raise" else "binding raises %s" % type(sense).__name__, "outcome": outcome})
             ctx.count("binding_calls")
+            if status == "raise":
+                if reached == 1 and (outcome != "raised" or exc is not sense):
+                    ctx.fail("C07:%s.facade_session.binding_error_%s" % (t, "hidden" if outcome != "raised" else "replaced"), "%s: the binding raised %r, the caller %s"
+                             % (label, sense, "got a normal return" if outcome != "raised" else "got %r" % exc), {"history": hist[-6:]})
+                elif reached > 1:
+                    ctx.fail("C07:%s.facade_session.binding_reached_%d_times" % (t, reached), "%s reached the binding %d times after the binding had raised" % (label, reached), {"history": hist[-6:]})
+                env.plan = []
+                continue
+            if status == 2 and sense is None:
+                # whatever is raised, it does not carry the sense of an earlier command
+                from vmon.spec import sense as _ref
+
+                if outcome != "raised":
+                    ctx.fail("C07:%s.facade_session.returns_normally.check_condition_without_sense" % t, "%s returned normally after CHECK CONDITION (no sense data available)" % label, {"history": hist[-6:]})
+                elif isinstance(exc, env.dev.CheckCondition) and isinstance(getattr(exc, "data", None), dict) and exc.data.get("sense_key") is not None:
+                    got = (exc.data.get("sense_key"), getattr(exc, "asc", None), getattr(exc, "ascq", None))
+                    if any(se is not None and _ref.parse(se)[2:] == got for _st, se in env.injected[:-1] if _st == 2):
+                        ctx.fail("C07:%s.facade_session.stale_sense_of_earlier_command" % t, "%s failed with CHECK CONDITION without sense data; the CheckCondition raised reports %r, the sense of an earlier command" % (label, got),
+                                 {"history": hist[-6:]})
+                env.plan = []
+                continue
             if reached != 1:
                 env.plan = []
                 if reached == 0:
